@@ -891,7 +891,13 @@ int disasm_msp430(
     n++;
   }
 
-  if (table_msp430[n].instr == NULL) { strcpy(instruction, "???"); }
+  if (table_msp430[n].instr == NULL)
+  {
+    strcpy(instruction, "???");
+
+    // An undefined opcode is still one word.
+    count += 2;
+  }
 
   if (prefix != 0xffff)
   {
